@@ -490,8 +490,25 @@ def rule_S_TOGGLE(ctx, repo):
         raise AnalysisError('anchor vanished: cache.archive property setter')
     # constructor: (archive given or NULL, swap NULL)
     init = ci.methods['__init__']
-    src = unparse(init.node)
-    ok = '__swap__ = null_archive()' in src and "kwds.pop('archive', null_archive())" in src
+    def is_null(e, depth=0):
+        # null_archive(), or a module-level name bound to one (a shared placeholder: a null archive holds nothing and discards writes)
+        if isinstance(e, ast.Call) and isinstance(e.func, ast.Name) and e.func.id == 'null_archive' and not e.args and not e.keywords:
+            return True
+        if isinstance(e, ast.Name) and depth < 3 and e.id in m.consts:
+            return is_null(m.consts[e.id], depth + 1)
+        return False
+    selfname = init.node.args.args[0].arg
+    last = {}
+    for st in init.node.body:      # unconditional statements of the constructor
+        if isinstance(st, ast.Assign):
+            for t in st.targets:
+                if isinstance(t, ast.Attribute) and isinstance(t.value, ast.Name) and t.value.id == selfname and t.attr in ('__swap__', '__archive__'):
+                    last[t.attr] = st.value
+    sw, ar = last.get('__swap__'), last.get('__archive__')
+    kw = init.node.args.kwarg.arg if init.node.args.kwarg else None
+    ok = sw is not None and is_null(sw)
+    ok = ok and isinstance(ar, ast.Call) and isinstance(ar.func, ast.Attribute) and ar.func.attr in ('pop', 'get') and isinstance(ar.func.value, ast.Name) \
+        and ar.func.value.id == kw and len(ar.args) == 2 and isinstance(ar.args[0], ast.Constant) and ar.args[0].value == 'archive' and is_null(ar.args[1])
     ctx.ob('S-TOGGLE', 'cache.__init__ initial state', ok)
     if not ok:
         ctx.fail('S-TOGGLE', init.qual, 'initial state', 'cache.__init__ does not start with swap = null_archive() and archive = given-or-null', init.where)
@@ -654,3 +671,55 @@ def rule_S_RED(ctx, repo):
                          '%s.%s rebuilds the object without %s: a pickled decorated function comes back with a different %s (e.g. the parked archive of a cache '
                          'switched off with archived(False), or the inner keymap of a chained keymap)' % (c.name, name, ', '.join(missing), 'archive binding' if c.name == 'cache' else 'key function'),
                          c.methods[name].where)
+
+
+def rule_S_IDENT(ctx, repo):
+    """S-IDENT: identity with a module-level instance does not survive pickling.  `X = SomeClass()` at module level makes one object per process;
+    a class that remembers it in an attribute and later asks `self.attr is X` (or `is not X`) gets a different answer after the instance was pickled
+    and restored, because the attribute then holds a *copy* of X - unless X's class pickles by reference (its __reduce__ returns the global's name) or
+    the comparison is by type / value.  Checked over every module of the package; today no such comparison exists (positive example: the kill matrix)."""
+    n = 0
+    for name in sorted(repo.modules):
+        m = repo.mod(name)
+        insts = {}
+        for g, v in m.consts.items():
+            if isinstance(v, ast.Call) and isinstance(v.func, ast.Name) and v.func.id in m.classes_by_name:
+                insts[g] = v.func.id
+        for g, origin in m.imports.items():
+            # a marker imported from a sibling module
+            parts = origin.lstrip('.').split('.')
+            if len(parts) >= 2 and parts[-2] in repo.modules:
+                om = repo.modules[parts[-2]]
+                v = om.consts.get(parts[-1])
+                if isinstance(v, ast.Call) and isinstance(v.func, ast.Name) and v.func.id in om.classes_by_name:
+                    insts[g] = (om, v.func.id)
+        for node in ast.walk(m.tree):
+            if not (isinstance(node, ast.Compare) and any(isinstance(o, (ast.Is, ast.IsNot)) for o in node.ops)):
+                continue
+            n += 1
+            operands = [node.left] + list(node.comparators)
+            for i, o in enumerate(operands):
+                if not (isinstance(o, ast.Name) and o.id in insts):
+                    continue
+                others = [x for j, x in enumerate(operands) if j != i]
+                # only state that travels with the instance matters: an attribute (self.x), a subscript of one, a call result held by the object
+                if not any(isinstance(x, (ast.Attribute, ast.Subscript)) or (isinstance(x, ast.Call)) for x in others):
+                    continue
+                ent = insts[o.id]
+                om, cname = (m, ent) if isinstance(ent, str) else ent
+                ok = False
+                for ci in om.classes_by_name.get(cname, []):
+                    fn = ci.methods.get('__reduce__') or ci.methods.get('__reduce_ex__')
+                    if fn is not None:
+                        rets = [r for r in ast.walk(fn.node) if isinstance(r, ast.Return)]
+                        ok = bool(rets) and all(isinstance(r.value, ast.Constant) and isinstance(r.value.value, str) for r in rets)
+                ctx.ob('S-IDENT', '%s:%d %s' % (m.rel, node.lineno, unparse(node)[:50]), ok)
+                if not ok:
+                    ctx.fail('S-IDENT', '%s::%s' % (m.rel, o.id), 'identity test against the per-process object %s' % o.id,
+                             '`%s` compares stored state with the module-level instance %s = %s() by identity. Pickling (dill of a cached function, copy of a cache) '
+                             'copies that instance by value, so in the restored object the test gives the opposite answer: the clone behaves differently from the '
+                             'original (for the cache class: archived() reports the wrong state and switching it parks / restores the wrong archive). Compare by type, or '
+                             'give %s a __reduce__ that returns the global name' % (unparse(node)[:80], o.id, cname, cname), '%s:%d' % (m.rel, node.lineno))
+    ctx.note('S-IDENT: %d identity comparisons inspected in %d modules' % (n, len(repo.modules)))
+    if n < 10:
+        raise AnalysisError('S-IDENT: only %d identity comparisons found in the package (expected many `is None` tests): the scan is not seeing the code' % n)
